@@ -232,6 +232,45 @@ func c17(w *core.World, r *core.Report) {
 		})
 	}
 
+	// ---- INDEX-PUBLISHED-COMPLETE
+	r.Rule("INDEX-PUBLISHED-COMPLETE", 2, "the readers of the lazily loaded key indexes only test them for nil, so an index is published (assigned to intendedStoreIndex / runningStoreIndex, directly or through a pointer handed to a helper) only when it is complete: no element is added to the assigned map after the assignment. An index that is visible while it is still being filled answers 'does not exist' to a concurrent validator and 'exists' to the sequential run.")
+	for _, f := range w.RepoFns {
+		if f.Pkg == nil || core.PkgPath(f) != core.Module+"/pkg/tree" {
+			continue
+		}
+		for _, b := range f.Blocks {
+			for _, in := range b.Instrs {
+				st, ok := in.(*ssa.Store)
+				if !ok || st.Val.Type().String() != indexType || core.IsNilConst(st.Val) {
+					continue
+				}
+				switch a := st.Addr.(type) {
+				case *ssa.FieldAddr:
+					if fk := core.FieldKey(a); fk != "tree.TreeCacheClientImpl.intendedStoreIndex" && fk != "tree.TreeCacheClientImpl.runningStoreIndex" && !strings.HasSuffix(core.FieldOf(a), "StoreIndex") {
+						continue
+					}
+				case *ssa.Alloc:
+					continue // a local variable of the map type, not the index
+				default:
+					// through a pointer to the index (a parameter of a helper that is handed &c.index, possibly captured)
+				}
+				late := false
+				for _, b2 := range f.Blocks {
+					for _, in2 := range b2.Instrs {
+						mu, ok := in2.(*ssa.MapUpdate)
+						if !ok || !(mu.Map == st.Val || core.SameObject(mu.Map, st.Val)) {
+							continue
+						}
+						if core.CanFollow(st, mu) {
+							late = true
+						}
+					}
+				}
+				r.Check(!late, "INDEX-PUBLISHED-COMPLETE", core.Site(f, "index assigned when complete"), w.InstrPos(st), "the map is still filled after it was made visible as the index: a reader that finds it non-nil answers from a partial index")
+			}
+		}
+	}
+
 	r.Rule("SNAPSHOT", 2, "childMap.GetAll and childMap.GetKeys hand out copies made under the read lock (the returned map / slice is allocated in the function), never the live map: traversals iterate a snapshot while lazy loads add children.")
 	for _, n := range []string{"GetAll", "GetKeys"} {
 		f := w.Func("pkg/tree", "childMap", n)
